@@ -37,8 +37,8 @@ def neg : FV → FV
 /-- `Float.__abs__` -/
 def abs (v : FV) : FV := v.withSign false
 
-/-- `Float.__pos__` as written in the code: `Float(s=False, x=self, ctx=None)`. -/
-def pos (v : FV) : FV := v.withSign false
+/-- `Float.__pos__`: `Float(x=self, ctx=None)`. -/
+def pos (v : FV) : FV := v
 
 /-- `Float.__add__` (both operands already `Float`). -/
 def add (a b : FV) : FV :=
